@@ -11,9 +11,17 @@
 // handle is well-formed, every accepted handle is used with every primitive factory and each
 // primitive that is created must be self-consistent; keys below the library's minimum strengths
 // must not give a usable primitive; random bytes / JSON must never panic.
+//
+// Length round (lenpass.go, ctor.go, twin.go; kslib/lenmut.go): every bytes field of every key
+// proto is extended by 1 byte / by a leading zero / by 32 bytes, doubled, truncated by 1 / to half
+// and emptied (labels mut/len-*), as single-key keysets, inside multi-key keysets and through the
+// public New*Key constructors; public-only handles are used with well-formed inputs (what the
+// untouched private twin signs, random strings of signature length, twin decryption). These
+// passes run last on their own random stream, so the lines of the older passes are unchanged.
 package main
 
 import (
+	"os"
 	"strings"
 
 	"github.com/tink-crypto/tink-go/v2/aead"
@@ -36,6 +44,7 @@ type world struct {
 	hugeBudget int
 	jsonFlip   bool
 	byType     map[string][]int // pool indices per Type
+	tw         twins            // signatures of the private twins (twin.go)
 }
 
 func clonePK(pk *kslib.PoolKey) *tinkpb.KeyData { return proto.Clone(pk.KD).(*tinkpb.KeyData) }
@@ -553,6 +562,22 @@ func main() {
 	w.slhBudget = hlib.N(3, 30)
 	w.hugeBudget = hlib.N(2, 10)
 
+	// -mode lengths | ctors (or VERIF_C14_MODE): only the systematic length passes / only the
+	// key-level constructor pass (for replays and mutant triage); default: everything
+	mode := *hlib.FlagMode
+	if mode == "" {
+		mode = os.Getenv("VERIF_C14_MODE")
+	}
+	if mode == "lengths" || mode == "ctors" {
+		w.rng = hlib.NewRng(*hlib.FlagSeed, "c14-lengths")
+		if mode == "lengths" {
+			w.lengthMutations()
+		} else {
+			w.constructors()
+		}
+		return
+	}
+
 	// every pool key alone, unmutated: each key type is accepted and usable
 	for _, pk := range w.pool.Keys {
 		g := &gen{ks: &tinkpb.Keyset{}, kinds: []string{"pool-key"}}
@@ -575,4 +600,9 @@ func main() {
 	w.minStrength()
 	w.randomInputs()
 
+	// added last, on their own random stream, so that everything above is what it was:
+	// systematic length mutations of all key material (keysets, then the key-level constructors)
+	w.rng = hlib.NewRng(*hlib.FlagSeed, "c14-lengths")
+	w.lengthMutations()
+	w.constructors()
 }
